@@ -351,6 +351,47 @@ impl<'ast, 'a> Visit<'ast> for FnFinder<'a> {
 
 // ------------------------------------------------------------ thread-local tables
 
+/// occurrences of the identity of the running thread (`thread::current`, `ThreadId`) outside
+/// tests and hooks: state keyed by it is thread-affine without any `thread_local!`
+struct ThreadIdFinder {
+    n: usize,
+}
+
+impl<'ast> Visit<'ast> for ThreadIdFinder {
+    fn visit_item_mod(&mut self, m: &'ast syn::ItemMod) {
+        if skip_attrs(&m.attrs) {
+            return;
+        }
+        syn::visit::visit_item_mod(self, m);
+    }
+    fn visit_item_fn(&mut self, f: &'ast syn::ItemFn) {
+        if skip_attrs(&f.attrs) {
+            return;
+        }
+        syn::visit::visit_item_fn(self, f);
+    }
+    fn visit_impl_item_fn(&mut self, f: &'ast syn::ImplItemFn) {
+        if skip_attrs(&f.attrs) {
+            return;
+        }
+        syn::visit::visit_impl_item_fn(self, f);
+    }
+    fn visit_path(&mut self, p: &'ast syn::Path) {
+        let segs: Vec<String> = p.segments.iter().map(|s| s.ident.to_string()).collect();
+        let n = segs.len();
+        if segs.last().map(|l| l == "ThreadId").unwrap_or(false) || (n >= 2 && segs[n - 2] == "thread" && segs[n - 1] == "current") {
+            self.n += 1;
+        }
+        syn::visit::visit_path(self, p);
+    }
+    fn visit_use_tree(&mut self, u: &'ast syn::UseTree) {
+        let t = u.to_token_stream().to_string();
+        if t.contains("ThreadId") || t.replace(' ', "").contains("thread::current") {
+            self.n += 1;
+        }
+    }
+}
+
 const TL_READS: [&str; 3] = ["get", "take", "with_borrow"];
 const TL_WRITES: [&str; 3] = ["set", "replace", "with_borrow_mut"];
 
@@ -655,6 +696,13 @@ pub fn c12globals(repo: &Path) -> Result<String, String> {
     s.push_str("]\n");
     // every static of a `thread_local!` by name: the functions that use it (all files: a `pub` one is used elsewhere)
     let lock_names: Vec<String> = statics.iter().filter(|st| st.kind == ".mutex" || st.kind == ".rwlock").map(|st| st.name.clone()).collect();
+    let mut thread_id_uses = 0;
+    for (_, f) in &parsed {
+        let mut tf = ThreadIdFinder { n: 0 };
+        tf.visit_file(f);
+        thread_id_uses += tf.n;
+    }
+    s.push_str(&format!("  threadIdUses := {thread_id_uses}\n"));
     s.push_str("  threadLocalTables := [");
     let mut tl_txt = vec![];
     for (file, name, ty) in &tl_statics {
